@@ -1272,10 +1272,13 @@ class C09(core.Check):
                   "column_widths_focus_independent: when the static needs fit, Columns.column_widths does not depend "
                   "on focus_position).  The two "
                   "Overlay statements refuted in the first round hold since the fix: commits ebf9945 / f18097d (former "
-                  "witnesses kept as regression Examples and corpus cases).  Correspondence/oracle only: real Edit / "
-                  "SelectableIcon / Button / CheckBox leaves, GridFlow, ListBox (no model), get_pref_col, 'pack' "
-                  "columns, fixed widgets, Padding 'pack'/'clip'.  Overlay pop-ups (PopUpLauncher/PopUpTarget) are "
-                  "not covered.")
+                  "witnesses kept as regression Examples and corpus cases).  MODELLED, CORRESPONDENCE ONLY (no theorems): "
+                  "the fixed-size paths (size ()): fixed leaves, Padding / Pile / Columns rendered fixed, 'pack' items "
+                  "holding fixed-only widgets, 'pack' columns, Overlay with width 'pack' (Model/GeometryX.v, an "
+                  "extension of the proved model; on every tree without fixed parts the two models are compared with "
+                  "each other inside run_case on every case).  Oracle only (no model): real Edit / SelectableIcon / "
+                  "Button / CheckBox leaves, GridFlow, ListBox, get_pref_col, Padding 'clip'.  Overlay pop-ups "
+                  "(PopUpLauncher/PopUpTarget) are not covered.")
     level_note = ("Trusted: Coq kernel, py2v translator, ExtrOcamlBasic extraction + OCaml driver, the hand-written "
                   "mirror of each method and of Pile.get_rows_sizes / get_item_rows, Columns.column_widths / "
                   "get_column_sizes, Frame.frame_top_bottom in Model/Geometry.v (validated by an exact "
@@ -1292,12 +1295,15 @@ class C09(core.Check):
         "tools/py2v translator (int_scale, calculate_left_right_padding, calculate_top_bottom_filler regenerated every run)",
         "extraction: ExtrOcamlBasic only; Z/positive stay Coq datatypes; OCaml 4.13.1; tools/driver/driver.ml",
         "hand-written mirror of the geometry methods and size helpers in Model/Geometry.v (validated by this correspondence)",
+        "Model/GeometryX.v (fixed-size paths, 'pack' columns, sizing() of Pile / Columns): executable only, validated by the correspondence; it answers for the proved model only after checking that both agree",
         "Python oracle, spy leaves and the implementation-side 'fits' walk in harness/props/c09.py",
     ]
     assumptions = [
         "rows() of every widget is independent of its focus argument; a widget's canvas has rows() rows (C01)",
         "every child supports the mode (flow / box) its container asks of it (checked against sizing() for every case)",
         "integer columns for move_cursor_to_coords ('left' / 'right' are not modelled); button-1 press events",
+        "pack((maxcol,))[0] == maxcol for every modelled widget (Widget.pack default; Text-like widgets with their own pack are oracle-only)",
+        "the theorems are about sizes (maxcol,) and (maxcol, maxrow); trees with fixed-size parts are covered by the extended model and the oracle only",
         "leaf contract: a leaf's get_cursor_coords equals the cursor of its own focused rendering; a cursor implies selectable + cursor API",
         "the bottom widget of an Overlay is background: it never receives mouse events (by design of Overlay.mouse_event)",
         "mouse events and cursor moves follow a rendering at the same size; get_cursor_coords is additionally asked on the never-rendered tree",
@@ -1522,7 +1528,16 @@ class C09(core.Check):
         """Widgets rendered with size (): alone, as a 'pack' item of a flow Pile / Columns, or as the top of an Overlay."""
         g = Gen(rng)
         ft = self.fixed_tree(g, rng, rng.choice([1, 2, 2, 3]))
-        kind = rng.choice(["alone", "alone", "overlay", "pile", "columns"])
+        kind = rng.choice(["alone", "alone", "overlay", "pile", "columns", "packflow"])
+        if kind == "packflow":      # a 'pack' column around a flow widget takes pack((maxcol,))[0] = all the columns
+            tree = ["columns", 0, rng.choice([0, 1]), 1, [[["pack"], 0, g.flow(rng.choice([0, 1]))]]]
+            if has_real(tree) or any(n[0] == "fleaf" for n in walk(tree)):
+                return None
+            got = self.sized(rng, tree, False)
+            if not got:
+                return None
+            self.add_moves(rng, got[0], got[1], 3)
+            return got[0]
         if kind == "alone":
             case = {"tree": ft, "size": [], "moves": []}
             try:
